@@ -136,7 +136,7 @@ fn entry_set(uni: &Universe, rng: &mut Rng, n: usize) -> Vec<SignedEntry> {
 
 pub fn run(ctx: &mut Ctx) {
     let scratch = Scratch::new();
-    for case in ctx.cases(120, 20_000) {
+    for case in ctx.cases(500, 40_000) {
         let mut rng = ctx.rng(case);
         let uni = Universe::new(&mut rng, 1);
         let other = Universe::new(&mut rng, 2); // neighbouring document in the same redb store
